@@ -235,7 +235,7 @@ func mustHex(s string) *big.Int {
 var (
 	P256         = &Group{Name: "P-256", curve: elliptic.P256(), ByteLen: 32, N: mustHex("ffffffff00000000ffffffffffffffffbce6faada7179e84f3b9cac2fc632551")}
 	P384         = &Group{Name: "P-384", curve: elliptic.P384(), ByteLen: 48, N: mustHex("ffffffffffffffffffffffffffffffffffffffffffffffffc7634d81f4372ddf581a0db248b0a77aecec196accc52973")}
-	P521         = &Group{Name: "P-521", curve: elliptic.P521(), ByteLen: 66, N: mustHex("01fffffffffffffffffffffffffffffffffffffffffffffffffffffffffffffffffffa51868783bf2f966b7fcc0148f709a5d03bb5c9b8899c47aebb6fb71e91386409")}
+	P521         = &Group{Name: "P-521", curve: elliptic.P521(), ByteLen: 66, N: mustHex("01fffffffffffffffffffffffffffffffffffffffffffffffffffffffffffffffffa51868783bf2f966b7fcc0148f709a5d03bb5c9b8899c47aebb6fb71e91386409")}
 	Ristretto255 = &Group{Name: "ristretto255", ByteLen: 32, N: mustHex("1000000000000000000000000000000014def9dea2f79cd65812631a5cf5d3ed")}
 )
 
